@@ -110,9 +110,15 @@ META = {
             "environment has one per environment-map entry. NOT proved as an invariant: it ties ep / closure environments to "
             "code objects through the frame chain (saved EnvironmentPointer of every frame and continuation), which neither "
             "WF-stack nor the heap invariants record; carried by the correspondence: the stream safe-side-conditions (C03) "
-            "evaluates np-lambda (HeapNP), np-cont-fits (ContFits) and np-env-slots (EnvSlots) on every real state (700 "
-            "quick / 3168 thorough, all ok; 19 CLOSURE and 37 ENTER states in the quick tier, deep-continuation scenarios "
-            "included). Model boundary noted there: heap.get_at_index(ep) with ep = usize::MAX (top-level code) is an `err` in "
+            "evaluates np-lambda (HeapNP), np-cont-fits (ContFits) and np-env-slots (EnvSlots) on every real state (700 in "
+            "the quick tier: 19 CLOSURE, 37 ENTER, 200+ CALL/TCALL states incl. continuation invocations; 3168 in the "
+            "thorough tier: 90 CLOSURE, 173 ENTER; all ok), and "
+            "ALSO the whole-state clauses that would make EnvSlots an invariant (Vm/NoPanicCheck.lean: np-clos-fit — every "
+            "closure cell's environment has a slot per entry of its lambda's map; np-child-env — the IofEnvironment "
+            "indices of every lambda a code object loads with MOVIMM index that code object's own map; np-frame-env — every "
+            "saved EnvironmentPointer/InstructionPointer pair in the live stack and in every continuation copy fits; all ok on "
+            "the same states and on a separate 1584-state thorough shard): evaluated, their preservation is not proved. "
+            "Model boundary noted there: heap.get_at_index(ep) with ep = usize::MAX (top-level code) is an `err` in "
             "the model (total signatures, ConcreteHeap decision 4), a Rust index panic in the code — reached only if "
             "top-level code closes over an IofEnvironment slot, which EnvSlots' premise envAt ep = some _ does not cover; "
             "compile.rs never emits that (toplevel free variables are globals). The Num model has genuine panic branches for division by an exact zero "
